@@ -90,6 +90,20 @@ def inventory(repo, res):
         ok &= any(x.has("self._unit_system_id is None", True) and any("self._unit_system_id = " in e for e in x.effects) for x in sums)
         ok &= all(not any("self._unit_system_id = " in e for e in x.effects) for x in sums if x.has("self._unit_system_id is None", False))
     res.check(ok, "registry-id", pid.where(), "the registry id is a digest of the sorted table contents (symbol and repr of the row), recomputed whenever the memo is None", rid=r1)
+    # ... "contents" as the user sees them: the lookup routine also writes rows into the table (the prefixed rows it
+    # derives on first use).  Either the digest leaves those rows out, or whoever writes them resets the memo;
+    # otherwise the id - and with it every Unit hash, the key of the lru caches and the key under which a code unit
+    # system was registered - depends on which prefixed units happened to be looked up before the id was computed.
+    from rules.anchors import lookup_symbol
+
+    lk_ = lookup_symbol(repo)
+    lutp = lk_.params[1]
+    writes_rows = [n for n in ast.walk(lk_.node) if isinstance(n, ast.Assign) and isinstance(n.targets[0], ast.Subscript) and norm(n.targets[0].value) == lutp]
+    digest_filters = any(isinstance(n, (ast.If, ast.IfExp, ast.comprehension)) and ("[4]" in norm(n) or "derived" in norm(n).lower()) for lp in (loops if ok else []) for n in ast.walk(lp))
+    resets = any(isinstance(n, ast.Assign) and norm(n.targets[0]).endswith("_unit_system_id") for n in ast.walk(lk_.node)) or any(
+        isinstance(n, ast.Assign) and norm(n.targets[0]) == "self._unit_system_id" for n in ast.walk(reg.func("UnitRegistry.__getitem__").node)
+    )
+    res.check(not writes_rows or digest_filters or resets, "registry-id:lookup-history", lk_.where(writes_rows[0]) if writes_rows else lk_.where(), "the symbol lookup stores derived prefixed rows in the table the registry id is a digest of, without resetting the memoised id: two registries with the same definitions get different ids (hence different Unit hashes) depending on which prefixed units were looked up before the id was first computed, and a memoised id no longer matches a recomputation (copy.deepcopy(q).in_base('code') raises KeyError)", "a digest over the defined rows only, or a reset of the memo when a derived row is stored", [norm(w)[:60] for w in writes_rows], rid=r1)
     cached = []
     for mod in repo.mods():
         for q, fns in mod.funcs.items():
@@ -129,6 +143,33 @@ def invalidation(repo, res):
                 miss["derived"] = p
         if n_write == 0:
             raise AnalysisError(f"{fn.where()}: no table write found in {m}")
+        # ordering against re-population: an invalidation that is followed, before the table write, by a call that
+        # evaluates units (a quantity argument converted with in_base(...) looks units up in this very registry, which
+        # re-derives prefixed rows from the OLD entry, re-fills the unit cache and re-memoises the contents id) is
+        # undone by that call.  Each of the three invalidations needs an occurrence after the last such call.
+        EVAL = {"in_base", "in_units", "to", "in_cgs", "in_mks", "to_value", "convert_to_base", "convert_to_units", "get_base_equivalent", "get_conversion_factor"}
+        undone = {}
+        for p in enum_paths(fn.body):
+            stm = [ev[1] for ev in p if ev[0] == "stmt"]
+            texts = [norm(s_) for s_ in stm]
+            writes = [i for i, s_ in enumerate(stm) if (isinstance(s_, ast.Assign) and any(norm(t) == f"self.lut[{sym}]" for t in s_.targets)) or (isinstance(s_, ast.Delete) and any(norm(t) == f"self.lut[{sym}]" for t in s_.targets))]
+            if not writes:
+                continue
+            w = writes[0]
+            evals = [i for i, s_ in enumerate(stm[:w]) if any(isinstance(c, ast.Call) and ((isinstance(c.func, ast.Attribute) and c.func.attr in EVAL) or norm(c.func) in ("Unit", "unyt_quantity", "unyt_array")) for c in ast.walk(s_))]
+            if not evals:
+                continue
+            last = evals[-1]
+            acts = {
+                "registry-id": [i for i, t in enumerate(texts) if t == "self._unit_system_id = None"],
+                "unit-cache": [i for i, t in enumerate(texts) if t in ("self._unit_object_cache.clear()", "self._unit_object_cache = {}")],
+                "derived-rows": [i for i, t in enumerate(texts) if t == f"self._forget_prefixed({sym})"],
+            }
+            for k_, idxs in acts.items():
+                if idxs and not any(i > last for i in idxs):
+                    undone[k_] = texts[last]
+        for k_ in ("registry-id", "unit-cache", "derived-rows"):
+            res.check(k_ not in undone, f"{m}:{k_}:after-evaluation", fn.where(), f"{m} invalidates ({k_}) and only then evaluates units against the registry (`{undone.get(k_, '')[:60]}`) before it writes the new entry: the evaluation re-creates what was just dropped from the OLD definition (e.g. r.modify('C', 1 kC) on a fresh registry leaves a kC row derived from the old C, and a stale contents id)", "the invalidation after the last unit-evaluating call", undone.get(k_, ""), rid=r2)
         res.check(miss["id"] is None, f"{m}:registry-id", fn.where(), f"{m} changes the table on a path that does not reset the memoised registry id (Unit hashes / lru caches would keep serving the old table)", rid=r2)
         res.check(miss["cache"] is None, f"{m}:unit-cache", fn.where(), f"{m} changes the table without clearing the whole unit-string cache: units built earlier from prefixed or compound strings mentioning {sym!r} keep the old definition", "self._unit_object_cache.clear()", "exact-key deletion or nothing", rid=r2)
         res.check(miss["derived"] is None, f"{m}:derived-rows", fn.where(), f"{m} changes an entry without first dropping the prefixed rows derived from it: Unit('k'+symbol) keeps the old scale / stays resolvable", f"self._forget_prefixed({sym}) before the write", rid=r2)
@@ -238,7 +279,8 @@ MUTANTS = [
     Mutant("modify-exact-key-only", REG, "UnitRegistry.modify", "        self._unit_object_cache.clear()", "        if symbol in self._unit_object_cache:\n            del self._unit_object_cache[symbol]", ("C12-R2",)),
     Mutant("add-no-clear", REG, "UnitRegistry.add", "        self._unit_object_cache.clear()\n", "", ("C12-R2",)),
     Mutant("remove-keeps-derived", REG, "UnitRegistry.remove", "        self._forget_prefixed(symbol)\n", "", ("C12-R2",)),
-    Mutant("modify-purges-late", REG, "UnitRegistry.modify", "        self._forget_prefixed(symbol)\n        if hasattr(base_value, \"in_base\"):", "        if hasattr(base_value, \"in_base\"):", ("C12-R2",), more=[(REG, "UnitRegistry.modify", "        # any cached unit string (prefixed or compound) may mention the symbol\n", "        self._forget_prefixed(symbol)\n", 1)]),
+    Mutant("modify-invalidates-before-conversion", REG, "UnitRegistry.modify", "        if hasattr(base_value, \"in_base\"):", "        self._forget_prefixed(symbol)\n        if hasattr(base_value, \"in_base\"):", ("C12-R2",), more=[(REG, "UnitRegistry.modify", "        self._forget_prefixed(symbol)\n        self.lut[symbol] = (float(base_value), new_dimensions) + self.lut[symbol][2:]\n", "        self.lut[symbol] = (float(base_value), new_dimensions) + self.lut[symbol][2:]\n", 1)]),
+    Mutant("modify-purges-late", REG, "UnitRegistry.modify", "        self._forget_prefixed(symbol)\n        self.lut[symbol] = (float(base_value), new_dimensions) + self.lut[symbol][2:]\n", "        self.lut[symbol] = (float(base_value), new_dimensions) + self.lut[symbol][2:]\n        self._forget_prefixed(symbol)\n", ("C12-R2",)),
     Mutant("id-not-reset", REG, "UnitRegistry.remove", "        self._unit_system_id = None\n", "", ("C12-R2",)),
     Mutant("forget-one-prefix", REG, "UnitRegistry._forget_prefixed", "for prefix, (prefix_value, _) in unit_prefixes.items():", "for prefix, (prefix_value, _) in list(unit_prefixes.items())[:1]:", ("C12-R2",)),
     Mutant("cache-key-normalised", UO, "Unit.__new__", "            unit_cache_key = unit_expr\n", "            unit_cache_key = unit_expr.strip()\n", ("C12-R1",)),
